@@ -357,7 +357,30 @@ func init() {
 			return nil
 		}
 	}
-	for _, n := range []string{"AddInt32", "AddInt64", "AddUint32", "AddUint64", "CompareAndSwapInt32", "CompareAndSwapInt64", "SwapInt32", "SwapInt64"} {
+	for _, n := range []string{"CompareAndSwapInt32", "CompareAndSwapInt64", "CompareAndSwapUint32", "CompareAndSwapUint64"} {
+		// sequential reading, consistent with atomic loads being stable within a step: the swap happens exactly when the
+		// location still holds the expected value
+		m["sync/atomic."+n] = func(vc *VC, fx *FuncCtx, st *State, fn *ssa.Function, args []Val, rt types.Type, instr ssa.Instruction) Val {
+			p, ok := args[0].(*PtrV)
+			ov, ok1 := args[1].(*Term)
+			nv, ok2 := args[2].(*Term)
+			if !ok || !ok1 || !ok2 {
+				if ok {
+					st.havocPlace(p)
+				}
+				return Fresh("cas", BoolSort)
+			}
+			cur, isT := st.load(p).(*Term)
+			if !isT {
+				st.havocPlace(p)
+				return Fresh("cas", BoolSort)
+			}
+			hit := Eq(cur, ov)
+			st.store(p, Ite(hit, nv, cur))
+			return hit
+		}
+	}
+	for _, n := range []string{"AddInt32", "AddInt64", "AddUint32", "AddUint64", "SwapInt32", "SwapInt64"} {
 		m["sync/atomic."+n] = func(vc *VC, fx *FuncCtx, st *State, fn *ssa.Function, args []Val, rt types.Type, instr ssa.Instruction) Val {
 			if p, ok := args[0].(*PtrV); ok {
 				st.havocPlace(p)
